@@ -21,4 +21,18 @@ PROPS = {
             {"name": "c01.fuzz", "pkg": BPV7, "kind": "fuzz", "fuzz": "FuzzVerifC01", "seconds": 240, "tiers": ["thorough"]},
         ],
     },
+    "C03": {
+        "level": "fault_enumeration",
+        "technique": "exhaustive single-bit fault enumeration per generated bundle + rapid-generated bursts, judged by an independent CRC-16/X-25 and CRC-32C implementation over independently delimited blocks",
+        "level_text": "For every generated fully CRC-protected bundle every bit position is flipped (exhaustive per bundle) and random bursts up to the CRC width are injected; acceptance is judged by independent bit-wise CRCs. The serialiser's CRCs are compared with the same independent implementation, and every public constructor path is enumerated for 'primary block always carries a CRC'.",
+        "level_note": "trusts the harness' bit-wise CRC implementations (self-tested with the published check values 0x906E / 0xE3069283) and CBOR reader; bundles 60..700 bytes for the exhaustive part, up to 70 KB for bursts",
+        "assumptions": ["bursts are confined to one block; bursts that move a block boundary are outside the statement's premise and only checked for 'not accepted unless sound'"],
+        "units": [
+            {"name": "c03.write", "pkg": BPV7, "test": "TestVerifC03Write", "shards_t": 8},
+            {"name": "c03.constructors", "pkg": BPV7, "test": "TestVerifC03Constructors"},
+            {"name": "c03.bitflips", "pkg": BPV7, "test": "TestVerifC03BitFlips", "shards_t": 16},
+            {"name": "c03.bursts", "pkg": BPV7, "test": "TestVerifC03Bursts", "shards_t": 16},
+            {"name": "c03.accept-only-if", "pkg": BPV7, "test": "TestVerifC03AcceptOnlyIf", "shards_t": 8},
+        ],
+    },
 }
